@@ -15,6 +15,7 @@ REG.spec('states.py:_task_state_progress',
     # C06: no (current, target) pair raises; contradictory final states are
     # discarded (docstring: task_state_progress(DONE, FAILED) --> [DONE, []])
     raises   = {},
+    no_raise_is_property = True,
     ensures  = [
       ('never-backward', 'tv(result[0]) >= tv(current)'),
       ('new-is-current-or-target', 'result[0] == current or result[0] == target'),
